@@ -4,6 +4,8 @@
 import Gmars.Model.Compile
 import Gmars.Spec.Program
 import Gmars.Proofs.LoadOK
+import Gmars.Proofs.AsmLabels
+import Gmars.Proofs.Render
 
 namespace Gmars.Props.C03
 open Gmars
@@ -24,5 +26,54 @@ theorem default_modifier_88 (op : Op) (am bm : Mode) (ha : Spec.mode88 am = true
 theorem opcode_any_case (op : Op) :
     getOpCode op.name.toList = some op ∧ getOpCode (GoStr.toLower op.name.toList) = some op := by
   cases op <;> decide
+
+/-- `compile_meaning` (stage 3, with labels) — for every program of labelled instructions whose
+    operands are precedence-well-formed expressions over numbers and label names (plus ORG / END),
+    every accepted configuration with a core below 2^63 and both dialects: the compiler stage on
+    the program's source lines returns exactly the reference meaning `Spec.meaningFlat` — labels
+    as offsets relative to the referring instruction, dialect default modes and modifiers, the
+    lone-operand rule, reduction modulo the core size, the entry point, the length limit — or
+    rejects exactly when the reference does. -/
+theorem compile_meaning_labels (lexTokens : String → List Token) (cfg : Config) (sc : Spec.Cfg)
+    (prog : List AsmLine.LItem) (ameta : AsmMeta)
+    (hv : cfg.validate = true) (h63 : cfg.coreSize.toNat < 2 ^ 63) (hr : AsmLine.CfgRel cfg sc)
+    (hnd : ((AsmLine.labelsFrom 0 prog).map (·.1) ++ AsmLine.constNames).Nodup)
+    (hsmall : AsmLine.linstrCount prog < 2 ^ 63)
+    (hw : AsmLine.ProgWF sc.M (AsmLine.labelsFrom 0 prog) 0 prog) :
+    compile lexTokens cfg (AsmLine.lrender 0 prog) ameta =
+      .ok ((Spec.meaningFlat sc (prog.map AsmLine.LItem.toItem)).map (AsmLine.toWD ameta)) :=
+  AsmLine.compile_meaning_labels lexTokens cfg sc prog ameta hv h63 hr hnd hsmall hw
+
+/-- per line: `assembleLine` = the reference's `instrMeaning` whenever the operand evaluations
+    agree (defaults, lone operand, '88 legality, reduction: all opcodes, both dialects) -/
+theorem line_meaning (c : Spec.Cfg) (t : Spec.Tables) (line : Nat) (opS : String)
+    (mdS : Option String) (a : Spec.POperand) (b : Option Spec.POperand) (av bv : Int)
+    (hM0 : 0 < c.M) (hM : c.M < 2 ^ 63)
+    (hop : AsmLine.Ascii opS) (hdot : '.' ∉ opS.toList) (hmd : ∀ s, mdS = some s → AsmLine.Ascii s)
+    (hA : Spec.evalAt c t line a.expr = some av)
+    (hB : ∀ bo, b = some bo → Spec.evalAt c t line bo.expr = some bv) :
+    AsmLine.lineShape c.legacy (c.M : Int) (AsmLine.opString opS mdS) (AsmLine.modeString a.mode)
+        (AsmLine.modeString (b.bind (·.mode))) b.isSome av bv =
+      Spec.instrMeaning c t line opS mdS a b :=
+  AsmLine.lineShape_meaning c t line opS mdS a b av bv hM0 hM hop hdot hmd hA hB
+
+/-- `parse_render` ∘ `lex_render` (stages 1 and 2) — a program written as words (labels with
+    optional colons, op[.modifier], mode symbols, expression tokens, commas, comments) renders to
+    characters with ANY runs of blanks and tabs between the words, blank lines and comment lines
+    between statements; lexing and parsing that text yields exactly the program's source lines and
+    metadata: the result does not depend on spacing, blank or comment lines, or colon suffixes. -/
+theorem parse_lex_any_spacing (p : Render.WProg) (hlex : ∀ it ∈ p.items, it.ok = true) (hp : p.toProg.OK)
+    (ls : List Render.SrcLine) (hls : ∀ l ∈ ls, l.ok (some '\n') = true)
+    (hsame : Render.SameLines ls p.srcLines) :
+    parse (Lex.tokens (Render.renderLines ls)) = .ok (some (p.toProg.lines, p.toProg.metadata)) :=
+  Render.parse_lex_any_spacing p hlex hp ls hls hsame
+
+/-
+  Still open as a single composed theorem: `assemble (render p) = meaning p` for programs with
+  EQUs and FOR blocks (the three stage theorems above and C08's pass theorems are its parts; the
+  source-line lists of `parse_lex_any_spacing` and `compile_meaning_labels` are not yet
+  identified with each other). The whole statement is checked by the asm94/asm88 domains on
+  15 000 renderings per run.
+-/
 
 end Gmars.Props.C03
